@@ -194,7 +194,7 @@ LIBC_KNOWN = {'malloc', 'free', 'realloc', 'calloc', 'memcpy', 'memmove', 'memse
 
 
 class Tr:
-    def __init__(self, text, ubchk=False, acc_prefixes=(), co=False, yield_prims=(), nthr_macro='VF_NTHR'):
+    def __init__(self, text, ubchk=False, acc_prefixes=(), co=False, yield_prims=(), nthr_macro='VF_NTHR', lifetime_havoc=False, racy_yield=False):
         self.types = {}
         self.globals = {}
         self.decls = {}
@@ -207,10 +207,24 @@ class Tr:
         self.co_enabled = co
         self.yield_prims = set('@' + y.lstrip('@') for y in yield_prims)
         self.nthr_macro = nthr_macro
+        self.lifetime_havoc = lifetime_havoc
+        self.racy_yield = racy_yield
+        self.racy_fields = set()
         self.defined = set()
         self.cur_co = False
         self.co_prefix = ''
         self.parse(text)
+        self.find_racy_fields()
+
+    def find_racy_fields(self):
+        """marker functions `__vf_racy_field_*` (harness) return the address of a field: accesses to that (struct type, index path) become scheduling points"""
+        for (nm, rt, ps, va, body) in self.funcs:
+            if '__vf_racy_field' not in nm:
+                continue
+            for ln in body:
+                m = re.search(r'getelementptr inbounds (%[-a-zA-Z$._0-9"]+|%"[^"]+"), .*?, i64 0((?:, i32 \d+)+)', ln)
+                if m:
+                    self.racy_fields.add((m.group(1), tuple(int(x) for x in re.findall(r'i32 (\d+)', m.group(2)))))
 
     # ---------- C names ----------
     RENAME = {'atexit': '__vf_atexit', '__cxa_atexit': '__vf_cxa_atexit'}
@@ -889,6 +903,7 @@ class Tr:
             b[1][:] = merged
         self.co_mem = []
         self.co_extra = []
+        self.racy_vals = set()
         insts = {}
         for b in blocks:
             insts[b[0]] = [self.parse_inst(l) for l in b[1]]
@@ -1056,6 +1071,8 @@ class Tr:
             assert p.next()[1] == 'to'
             tt = parse_type(p)
             self.vals[dst] = tt
+            if op == 'bitcast' and a in self.racy_vals:
+                self.racy_vals.add(self.lname(dst))
             return ('cast', dst, op, ft, a, tt)
         if op == 'load':
             fl = flags()
@@ -1086,6 +1103,10 @@ class Tr:
                 it = parse_type(p)
                 idx.append(self.operand(p, it))
             self.vals[dst] = ('ptr', ('int', 8))
+            if self.racy_fields and st[0] == 'named':
+                path = tuple(int(re.fullmatch(r'(\d+)U(LL)?', i).group(1)) for i in idx[1:] if re.fullmatch(r'(\d+)U(LL)?', i))
+                if len(path) == len(idx) - 1 and (st[1], path) in self.racy_fields:
+                    self.racy_vals.add(self.lname(dst))
             return ('gep', dst, st, base, idx)
         if op == 'alloca':
             t = parse_type(p)
@@ -1374,13 +1395,13 @@ class Tr:
             return ['%s = (%s)%s;' % (L(d), ct, a)]
         if k == 'load':
             _, d, t, a, atomic = ins
-            pre = []
+            pre = self.racy_point(a)
             if self.acc_on:
                 pre.append('__vf_acc(%s, sizeof(%s), %d);' % (a, self.ctype(t), 2 if atomic else 0))
             return pre + ['%s = *(%s*)%s;' % (L(d), self.ctype(t), a)]
         if k == 'store':
             _, t, v, a, atomic = ins
-            pre = []
+            pre = self.racy_point(a)
             if self.acc_on:
                 pre.append('__vf_acc(%s, sizeof(%s), %d);' % (a, self.ctype(t), 3 if atomic else 1))
             return pre + ['*(%s*)%s = %s;' % (self.ctype(t), a, v)]
@@ -1530,10 +1551,20 @@ class Tr:
             return pre + [e + ';']
         raise NotImplementedError(ins)
 
+    def racy_point(self, a):
+        """scheduling point before an access to a field declared racy (only in resumable code)"""
+        if not (self.racy_yield and self.cur_co and a in self.racy_vals):
+            return []
+        self.resume += 1
+        k_ = self.resume
+        return ['__vf_racy_pre(%s); F->pc = %d; return 1; R%d: ; __vf_racy_post(%s);' % (a, k_, k_, a)]
+
     def intrinsic(self, d, rt, callee, args):
         n = callee[6:]
         av = [a for _, a in args]
         L = self.lname
+        if n.startswith('lifetime.end') and self.lifetime_havoc:
+            return ['__vf_lifetime_end(%s, %s);' % (av[1], av[0])]
         if n.startswith(('lifetime.', 'dbg.', 'experimental.noalias', 'invariant.', 'assume', 'prefetch', 'donothing')):
             return []
         pre = []
